@@ -374,6 +374,14 @@ theorem taylor_load_order_irrelevant {γ M} [AddCommMonoid M] (term : Int × Nat
     ((taylorLoad cl).map term).sum = (cl.map term).sum :=
   ((taylor_load_perm cl).map term).sum_eq
 
+theorem taylorLoadSrc_perm {γ} (b : Bool) (cl : List (Int × Nat × γ)) : (taylorLoadSrc b cl).Perm cl := by
+  cases b
+  · exact taylor_load_perm cl
+  · exact List.Perm.refl _
+
+/-- with the saved positions restored the reloaded expansion IS the saved one (same order: bit-identical sums) -/
+theorem taylorLoadSrc_restored {γ} (cl : List (Int × Nat × γ)) : taylorLoadSrc true cl = cl := rfl
+
 /-! ### observational equivalence of the reloaded object -/
 
 def agreeOn {V} (R : List Nat) (o o' : Obj V) : Prop := ∀ a ∈ R, o a = o' a
